@@ -127,23 +127,41 @@ structure Change where
   change : ChangeType
 deriving Repr
 
+/-- loop state of `PlanBulkUpdate`: the change list and the `updatedAliases` set -/
+structure PlanAcc where
+  changes : List Change := []
+  updated : List String := []
+deriving Repr
+
+/-- the decision for one entity: its issuer is already planned, or `needsUpdate` says so -/
+def planDecision (s : State) (st : Strategy) (hashOf : V1.CertificateContent → Bytes) (now : Int)
+    (updated : List String) (e : Entity) (cfg : V1.CertificateContent) : Bool :=
+  updated.contains cfg.issuer || needsUpdate s st e cfg (hashOf cfg) now
+
+/-- one iteration of the `for i < len(todo)` loop (the worklist order is `Forest.bfs`) -/
+def planStep (s : State) (st : Strategy) (hashOf : V1.CertificateContent → Bytes) (now : Int)
+    (acc : R PlanAcc) (a : String) : R PlanAcc :=
+  match acc with
+  | .error e => .error e
+  | .ok acc =>
+    match validateAndMerge s a with
+    | .error e => .error e
+    | .ok cfg =>
+      match s.find a with
+      | none => .error "plan: unknown alias"
+      | some e =>
+        if planDecision s st hashOf now acc.updated e cfg then
+          .ok ⟨acc.changes ++ [⟨a, cfg, if e.art.cert.isSome then .replace else .create⟩], acc.updated ++ [cfg.alias_]⟩
+        else .ok acc
+
 /-- `PlanBulkUpdate`: breadth-first over roots and subscribers; an entity whose issuer is planned is planned -/
-def planBulkUpdate (s : State) (st : Strategy) (hashOf : V1.CertificateContent → Bytes) (now : Int) : R (List Change) := do
-  let order ← match Forest.bfs s.ents (s.entities.length + 1) [] (Forest.roots s.ents) with
-    | some o => pure o
-    | none => throw "plan: worklist did not terminate"
-  let mut changes : List Change := []
-  let mut updated : List String := []
-  for a in order do
-    let cfg ← validateAndMerge s a
-    match s.find a with
-    | none => throw "plan: unknown alias"
-    | some e =>
-      let update := if updated.contains cfg.issuer then true else needsUpdate s st e cfg (hashOf cfg) now
-      if update then
-        updated := updated ++ [cfg.alias_]
-        changes := changes ++ [⟨a, cfg, if e.art.cert.isSome then .replace else .create⟩]
-  pure changes
+def planBulkUpdate (s : State) (st : Strategy) (hashOf : V1.CertificateContent → Bytes) (now : Int) : R (List Change) :=
+  match Forest.bfs s.ents (s.entities.length + 1) [] (Forest.roots s.ents) with
+  | none => .error "plan: worklist did not terminate"
+  | some order =>
+    match order.foldl (planStep s st hashOf now) (.ok {}) with
+    | .error e => .error e
+    | .ok acc => .ok acc.changes
 
 /-! ### GenerateArtifacts -/
 
